@@ -1,7 +1,7 @@
 #!/bin/bash
-# usage: tools/keep_seed.sh <PROP> <i> <test-paths...>   (worktree /tmp/wt_<PROP>, seed_out/patch<i>.diff)
+# usage: [DEST=<j>] tools/keep_seed.sh <PROP> <i> <test-paths...>   (worktree /tmp/wt_<PROP>, seed_out/patch<i>.diff; stored as <PROP>-<j>, default j=i)
 # confirms: demo passes clean, fails patched; given tests pass patched; then stores under /verif/seeded/<PROP>-<i>/
-PROP="$1"; I="$2"; shift 2
+PROP="$1"; I="$2"; shift 2; J="${DEST:-$I}"
 WT=/tmp/wt_$PROP
 cd "$WT" || exit 9
 git checkout -q -- gemclus
@@ -12,7 +12,7 @@ git apply seed_out/patch$I.diff || { echo "patch does not apply"; exit 9; }
 git checkout -q -- gemclus
 echo "demo clean exit=$C patched exit=$P ; tests (patched): $(cat /tmp/seed_tests.log)"
 if [ "$C" = "0" ] && [ "$P" != "0" ]; then
-  D=/verif/seeded/$PROP-$I; mkdir -p "$D"
+  D=/verif/seeded/$PROP-$J; mkdir -p "$D"
   cp seed_out/patch$I.diff "$D/patch.diff"; cp seed_out/demo$I.py "$D/demo.py"; cp seed_out/notes$I.txt "$D/notes.txt"
   echo "$(cat /tmp/seed_tests.log)" > "$D/tests_patched.txt"
   echo "kept $D"
